@@ -73,6 +73,8 @@ def gen_program(rng: random.Random, mapping: str, big: bool = False) -> dict:
              {"k": "call", "n": "shadowD", "as": [E(0x41), E(0x1234)]},
              {"k": "for", "v": "DEFB", "a": E(0), "b": E(2), "body": [dbn("DEFB")]},
              {"k": "scope", "n": "nsD", "b": [{"k": "label", "n": "DEFA"}, {"k": "data", "d": "dl", "es": [E("DEFA")]}]}]
+    # a directory of the project's files, as text: a quoted string of .ascii is data, never a path
+    tail += [{"k": "ascii", "t": name} for name in list(p["files"])[:3] + ["t.s"]]
     base = 0xC25000 if rom == "high" else 0x03A000
     overlap = [{"k": "org", "e": E(base + 0x10)}, {"k": "data", "d": "db", "es": [E(0x11)] * 8},
                {"k": "org", "e": E(base + 0x0C)}, {"k": "data", "d": "db", "es": [E(0x22)] * 8}]      # the later statement wins where blocks overlap
@@ -136,12 +138,18 @@ def check_point(res: Res, p: dict, fmt: str, mapping: str, copier: bool, defs: l
         if ref.err_kind == "KeyError" and mapping == "low2" and "low_rom_2" in ref.err_text:
             res.violate("mapping-low2-missing", f"the in-memory assembler itself has no bus for mapping low2: {ref.err_text[:120]}", wit)
         return
+    import vf.frontends as fe
+
+    fe.DUMP_SYMBOLS["on"] = front != "api" and (len(src) + len(defs)) % 3 == 0
+    if fe.DUMP_SYMBOLS["on"]:
+        res.count("cli_runs_with_dump_symbols")
     if front == "api":
         fr = file_api("patch" if fmt == "ips" else "sfc", src, files, mapping, copier, dvals, want_symbols=True, layout=layout)
     elif front == "cli":
         fr = cli_inprocess(fmt, src, files, mapping, copier, defs, layout=layout)
     else:
         fr = cli_subprocess(fmt, src, files, mapping, copier, defs, layout=layout)
+    fe.DUMP_SYMBOLS["on"] = False
     res.count(f"front[{front}]")
     mech_hint = None
     if defs and front != "api":
